@@ -555,7 +555,14 @@ func (c *Ctx) checkExpiry() {
 			c.check(okNow && path == nil, rule, "SendQueue sets LastSeen = now before restoring the heap order", p.instrPos(s), "", "LastSeen is refreshed after (or without) heap.Fix/heap.Push: the heap root is no longer the oldest record, so expired queues are kept or live ones inspected out of order", p.pathString(path)...)
 		}
 		if n < 1 {
-			c.undecided(rule, "SendQueue LastSeen stores", p.Pos(sq.Pos()), "no store to LastSeen found")
+			c.missingOrMoved(rule, "SendQueue refreshes LastSeen", sq, func(in ssa.Instruction) bool {
+				st, ok := in.(*ssa.Store)
+				if !ok {
+					return false
+				}
+				_, f, okf := fieldOfAddr(st.Addr)
+				return okf && f.Name() == "LastSeen"
+			}, "a store to clientRecord.LastSeen", "a client's record is never refreshed: its queue expires while it is in use")
 		}
 		// heap.Fix on the found index
 		okFix := false
